@@ -70,6 +70,15 @@ def check(run):
         p = subprocess.Popen([racebin, '-test.run', '^TestRaceStress$', '-test.timeout', '600s'], cwd=run.scratch, env=env,
                              stdout=subprocess.PIPE, stderr=subprocess.STDOUT, text=True)
         procs.append((i, p, logp, outp))
+    # cold starts (first concurrent use of fresh objects) in processes of their own
+    for i in range(runs, runs + run.pick(2, 4)):
+        logp = os.path.join(run.scratch, 'racelog%d' % i)
+        outp = os.path.join(run.scratch, 'race%d.ndjson' % i)
+        env = dict(os.environ, GORACE='log_path=%s halt_on_error=0 history_size=4' % logp, VERIF_OUT=outp, VERIF_SCRATCH=run.scratch,
+                   VERIF_COLD_ROUNDS=str(run.pick(150, 1500)), VERIF_SEED=str(run.seed * 100 + i))
+        p = subprocess.Popen([racebin, '-test.run', '^TestRaceCold$', '-test.timeout', '600s'], cwd=run.scratch, env=env,
+                             stdout=subprocess.PIPE, stderr=subprocess.STDOUT, text=True)
+        procs.append((i, p, logp, outp))
     reports, aborts, counts = [], 0, {}
     for i, p, logp, outp in procs:
         try:
